@@ -233,6 +233,43 @@ pub fn item_bytes(peer: &mut RawPeer, name: &str, t: u32, state: TargetState, rn
             raw_frame(T_HEADERS, F_END_STREAM | F_END_HEADERS, t, &[0x00, 0x84, 0xff, 0xff, 0xff, 0xff, 0x01, b'v'], &mut b);
             (Conn(9), false)
         }
+        "hpack-truncated-block" => {
+            if state != Idle {
+                return None;
+            }
+            // a complete request followed by the beginning of one more field representation, in one frame
+            // or cut anywhere into HEADERS + CONTINUATION(s) (also with an empty last CONTINUATION): the
+            // block ends inside a representation whichever frame carries its end (RFC 7541 sections 3.2, 5)
+            let mut blk = peer.encode_block(&[f(":method", "GET"), f(":scheme", "https"), f(":path", "/"), f(":authority", "vp.test")]);
+            let tail: &[u8] = match rng.below(5) {
+                0 => &[0x40, 0x03, b'a', b'b'],
+                1 => &[0x40, 0x01, b'a'],
+                2 => &[0x00, 0x01, b'a', 0x05, b'v'],
+                3 => &[0x7f],
+                _ => &[0xff, 0x80],
+            };
+            blk.extend_from_slice(tail);
+            match rng.below(4) {
+                0 => raw_frame(T_HEADERS, F_END_STREAM | F_END_HEADERS, t, &blk, &mut b),
+                1 => {
+                    let c = rng.usize_below(blk.len() + 1);
+                    raw_frame(T_HEADERS, F_END_STREAM, t, &blk[..c], &mut b);
+                    raw_frame(T_CONTINUATION, F_END_HEADERS, t, &blk[c..], &mut b);
+                }
+                2 => {
+                    raw_frame(T_HEADERS, F_END_STREAM, t, &blk, &mut b);
+                    raw_frame(T_CONTINUATION, F_END_HEADERS, t, &[], &mut b);
+                }
+                _ => {
+                    let c1 = rng.usize_below(blk.len() + 1);
+                    let c2 = c1 + rng.usize_below(blk.len() - c1 + 1);
+                    raw_frame(T_HEADERS, F_END_STREAM, t, &blk[..c1], &mut b);
+                    raw_frame(T_CONTINUATION, 0, t, &blk[c1..c2], &mut b);
+                    raw_frame(T_CONTINUATION, F_END_HEADERS, t, &blk[c2..], &mut b);
+                }
+            }
+            (Conn(9), false)
+        }
         "hpack-oversize-table-update" => {
             if state != Idle {
                 return None;
@@ -550,6 +587,7 @@ pub const ITEMS: &[&str] = &[
     "continuation-on-other-stream",
     "hpack-bad-index",
     "hpack-bad-huffman",
+    "hpack-truncated-block",
     "hpack-oversize-table-update",
     "even-stream-id-from-client",
     "headers-on-closed-lower-id",
@@ -610,9 +648,22 @@ pub struct CatalogueScenario {
 }
 
 pub fn gen_catalogue(seed: u64) -> CatalogueScenario {
+    gen_catalogue_kinds(seed, &[])
+}
+
+/// `only`: item name prefixes to restrict the catalogue to (empty = all items)
+pub fn gen_catalogue_kinds(seed: u64, only: &[String]) -> CatalogueScenario {
     let mut rng = Rng::new(seed ^ 0xca7a_1090);
-    let item = rng.pick(ITEMS).to_string();
-    let state = *rng.pick(&ALL_STATES);
+    let (item, state) = if only.is_empty() {
+        (rng.pick(ITEMS).to_string(), *rng.pick(&ALL_STATES))
+    } else {
+        let pool: Vec<&&str> = ITEMS.iter().filter(|i| only.iter().any(|p| i.starts_with(p.as_str()))).collect();
+        assert!(!pool.is_empty(), "no catalogue item matches --kinds");
+        let item = rng.pick(&pool).to_string();
+        // header compression items open a new stream: they only apply to an idle target
+        let state = if item.starts_with("hpack-") { TargetState::Idle } else { *rng.pick(&ALL_STATES) };
+        (item, state)
+    };
     let mut cfg = EpCfg::default();
     cfg.data_frame_budget = Some(1 << 40);
     cfg.initial_window_size = *rng.pick(&[None, None, Some(1000u32), Some(20_000), Some(65_535), Some(200_000)]);
@@ -1573,7 +1624,7 @@ async fn headers_peer_server(mut p: RawPeer, sc: HeadersScenario, rep: Rc<RefCel
 
 /// A minimal h2 client application for raw scenarios: handshake, connection task, requesters.
 pub async fn raw_client_app(ctx: Ctx, io: PipeEnd, cfg: EpCfg, specs: Vec<StreamSpec>, ctl: ConnCtlRef, hooks: SnapHook) {
-    let r = client_builder(&cfg).handshake::<_, Bytes>(io).await;
+    let r = client_builder(&cfg).handshake::<_, crate::apps::actors::BodyBuf>(io).await;
     let (sr, conn) = match r {
         Ok(x) => x,
         Err(_) => {
@@ -2008,6 +2059,68 @@ fn grammar_frames(rng: &mut Rng, enc: &mut crate::wire::hpack_ref::RefEncoder, n
     }
 }
 
+/// A server's side of a conversation with an h2 client that has `n_req` requests in flight: mostly legal
+/// responses, pushes, pushed responses, resets and trailers, with the deviations that only matter in a
+/// particular stream state (a promised id used twice or out of order, a promise on a parent that has ended
+/// or was reset, a second response, DATA after END_STREAM, a malformed head that makes the client reset
+/// the stream and later frames that refer to it).
+fn stateful_server_script(rng: &mut Rng, enc: &mut crate::wire::hpack_ref::RefEncoder, n_req: u32, out: &mut Vec<u8>) {
+    let parents: Vec<u32> = (0..n_req.max(1)).map(|i| 1 + 2 * i).collect();
+    let mut next_promised = 2u32;
+    let mut promised_used: Vec<u32> = Vec::new();
+    let steps = rng.range(3, 26);
+    for _ in 0..steps {
+        let parent = *rng.pick(&parents);
+        let any = if !promised_used.is_empty() && rng.chance(1, 2) { *rng.pick(&promised_used) } else { parent };
+        match rng.below(13) {
+            0 | 1 | 2 => {
+                let promised = match rng.below(6) {
+                    0 if !promised_used.is_empty() => *rng.pick(&promised_used),
+                    1 => next_promised + 2,
+                    _ => next_promised,
+                };
+                if promised >= next_promised {
+                    next_promised = promised + 2;
+                }
+                promised_used.push(promised);
+                let mut fields = vec![f(":method", *rng.pick(&["GET", "GET", "HEAD", "POST"])), f(":scheme", "https"), f(":authority", "vp.test"), f(":path", "/pushed")];
+                if rng.chance(1, 8) {
+                    fields.push(f("connection", "close"));
+                }
+                let mut blk = Vec::new();
+                enc.block(&fields, &mut blk);
+                push_promise(parent, promised, &blk, None, 0, 0, out);
+            }
+            3 | 4 | 5 => {
+                // a response head on a request stream or a promised stream
+                let mut fields = match rng.below(8) {
+                    0 => vec![f("content-type", "text/plain")],
+                    1 => vec![f(":status", "200"), f("connection", "close")],
+                    2 => vec![f(":status", "200"), f("Upper", "x")],
+                    3 => vec![f(":status", "103")],
+                    _ => vec![f(":status", *rng.pick(&["200", "204", "404"]))],
+                };
+                if rng.chance(1, 6) {
+                    fields.push(f("content-length", *rng.pick(&["0", "3", "100"])));
+                }
+                let mut blk = Vec::new();
+                enc.block(&fields, &mut blk);
+                headers(any, &blk, rng.chance(1, 3), None, None, 0, 0, out);
+            }
+            6 | 7 => data(any, &vec![0x44; *rng.pick(&[0usize, 3, 100, 1000])], rng.chance(1, 2), None, out),
+            8 => rst(any, *rng.pick(&[0u32, 2, 7, 8]), out),
+            9 => {
+                let mut blk = Vec::new();
+                enc.block(&[f("x-trailer", "t")], &mut blk);
+                headers(any, &blk, true, None, None, 0, 0, out);
+            }
+            10 => window_update(if rng.chance(1, 3) { 0 } else { any }, *rng.pick(&[1u32, 1000, 65_535]), out),
+            11 => ping(false, [7; 8], out),
+            _ => priority(any, false, parent, 16, out),
+        }
+    }
+}
+
 fn legal_transcript(rng: &mut Rng, client_role: bool) -> Vec<u8> {
     let mut enc = crate::wire::hpack_ref::RefEncoder::new(4096);
     let mut b = Vec::new();
@@ -2082,7 +2195,12 @@ pub fn gen_fuzz(seed: u64) -> FuzzScenario {
     let mut rng = Rng::new(seed ^ 0xf022);
     let e_server = rng.chance(1, 2);
     let client_role = e_server; // the peer's role
-    let class = *rng.pick(&["grammar", "grammar", "mutation", "mutation", "extremes", "random"]);
+    let mut class = *rng.pick(&["grammar", "grammar", "mutation", "mutation", "extremes", "random", "stateful", "stateful"]);
+    if class == "stateful" && e_server {
+        // the server-side counterpart of this class is the catalogue family
+        class = "grammar";
+    }
+    let mut stateful_requests = None;
     let mut input = Vec::new();
     let mut enc = crate::wire::hpack_ref::RefEncoder::new(4096);
     let handshake_first = rng.chance(4, 5);
@@ -2096,6 +2214,17 @@ pub fn gen_fuzz(seed: u64) -> FuzzScenario {
         "grammar" => {
             let n = rng.range(1, 40) as usize;
             grammar_frames(&mut rng, &mut enc, n, client_role, &mut input);
+        }
+        "stateful" => {
+            let n_req = 1 + rng.below(3) as u32;
+            stateful_requests = Some(n_req as usize);
+            if !handshake_first {
+                settings(&[], &mut input);
+            }
+            stateful_server_script(&mut rng, &mut enc, n_req, &mut input);
+            if rng.chance(1, 4) {
+                mutate(&mut rng, &mut input);
+            }
         }
         "mutation" => {
             let mut t = legal_transcript(&mut rng, client_role);
@@ -2159,7 +2288,7 @@ pub fn gen_fuzz(seed: u64) -> FuzzScenario {
     if rng.chance(1, 3) {
         cfg.initial_window_size = Some(*rng.pick(&[0u32, 10, 70_000]));
     }
-    FuzzScenario { seed, e_server, class, input, prof: [gen_profile(&mut rng), gen_profile(&mut rng)], sched: gen_sched(&mut rng), cfg, n_requests: rng.range(0, 3) as usize, answer_settings: rng.chance(2, 3) }
+    FuzzScenario { seed, e_server, class, input, prof: [gen_profile(&mut rng), gen_profile(&mut rng)], sched: gen_sched(&mut rng), cfg, n_requests: { let n = rng.range(0, 3) as usize; stateful_requests.unwrap_or(n) }, answer_settings: rng.chance(2, 3) }
 }
 
 async fn fuzz_peer(mut p: RawPeer, sc: FuzzScenario) {
